@@ -80,7 +80,8 @@ def run(P, item):
         orig = install_cache_hook(I, ctx, log)
         # tag log entries with the subject whose wrapper made the call
         hooked = I.call_fn
-        counts = {n: (0 if n in unused else nfill) for n in subj_names}
+        late = set(item.get('late', []))
+        counts = {n: (0 if (n in unused or n in late) else nfill) for n in subj_names}
         cur = {'name': None}
         args = {}; calls = {}
         for name, k in counts.items():
@@ -94,6 +95,7 @@ def run(P, item):
                 tl.append(xs); calls.setdefault(name, []).append(cargs)
             args[name] = tl
         used = [n for n in subj_names if counts[n] > 0]
+        used_first = list(used)
         pre = {}
         snap = snapshot(P, log, subjs, used)
         for n in used:
@@ -133,10 +135,23 @@ def run(P, item):
         follow = follow_up() if item.get('follow', True) else {}
         second = None
         if item.get('repeat'):
+            # caches used for the first time only now (their registration happens after the first request)
+            for name in subj_names:
+                if name not in late: continue
+                S = subjs[name]; tl = []
+                for i in range(nfill):
+                    cargs, xs = subject_args(ctx, S.rec, f'{name}_{i}')
+                    for prev in tl: ctx.add(b_not(tuple_eq(xs, prev)))
+                    n0 = len(log)
+                    wrap.call_subject(I, ctx, S, cargs, 0)
+                    for e in log[n0:]: e['subject'] = name
+                    tl.append(xs); calls.setdefault(name, []).append(cargs)
+                args[name] = tl; used.append(name)
+            snap.update(snapshot(P, log, subjs, [n for n in late if n in subj_names]))
             pre2 = snap_now(); ret2 = request(); post2 = snap_now(); follow2 = follow_up()
-            second = dict(pre=pre2, post=post2, ret=ret2, follow=follow2)
+            second = dict(pre=pre2, post=post2, ret=ret2, follow=follow2, used=list(used))
         if second is not None:
-            return dict(subjs=subjs, used=used, pre=pre, post=post, ret=ret, pred=pred, args=args, follow=follow, second=second)
+            return dict(subjs=subjs, used=used_first, pre=pre, post=post, ret=ret, pred=pred, args=args, follow=follow, second=second)
         return dict(subjs=subjs, used=used, pre=pre, post=post, ret=ret, pred=pred, args=args, follow=follow)
 
     outs, st = explore(run_path, seed=item.get('seed', 0), timeout_ms=20000 if item.get('tier') != 'thorough' else 120000, max_paths=4000)
@@ -156,7 +171,7 @@ def run(P, item):
                                           witness=inv_witness(ctx, model, item, d, cname)))
     return dict(paths=res['paths'], claims=res['claims'], failed=res['failed'], classes=sorted(res['classes']), funcs=sorted(res['funcs']), builtins=sorted(res['builtins']),
                 checks=st['checks'], solver_s=st['solver_s'], blocks=st['blocks'], infeasible=st['infeasible'],
-                tag=f"INV {mode} {item.get('kind2', '')}:{item.get('name', '*')} unused={sorted(item.get('unused', []))} fill={item.get('nfill', 2)}{' x2' if item.get('repeat') else ''}")
+                tag=f"INV {mode} {item.get('kind2', '')}:{item.get('name', '*')} unused={sorted(item.get('unused', []))} late={sorted(item.get('late', []))} fill={item.get('nfill', 2)}{' x2' if item.get('repeat') else ''}")
 
 
 def same_keys(a, b):
@@ -239,7 +254,7 @@ def inv_witness(ctx, model, item, d, cname):
     w = dict(mode=item['mode'], kind2=item.get('kind2'), name=item.get('name'), cache=cname, unused=sorted(item.get('unused', [])),
              fills={n: [[ev(x) for x in t] for t in ts] for n, ts in d['args'].items()},
              pred=[(cn, render_key(k, ev), ev(b)) for cn, k, b in d['pred'].memo], ret=(ev(d['ret']) if d['ret'] is not None and not isinstance(d['ret'], Agg) else None),
-             repeat=bool(item.get('repeat')), post_keys={n: [render_key(k, ev) for k in d['post'][n][0]] for n in d['used']}, post_queue={n: [render_key(k, ev) for k in d['post'][n][1]] for n in d['used']},
+             late=sorted(item.get('late', [])), repeat=bool(item.get('repeat')), post_keys={n: [render_key(k, ev) for k in d['post'][n][0]] for n in d['used']}, post_queue={n: [render_key(k, ev) for k in d['post'][n][1]] for n in d['used']},
              follow=d['follow'])
     return w
 
@@ -250,8 +265,13 @@ def replay(f, w):
     if w is None: return False, 'no witness', []
     subs = wrap.subjects()
     L = ['scenario subj']
+    late = set(w.get('late') or [])
+    def callline(n, t):
+        recv = t[0] if subs[n]['recv'] else 0; rest = t[1:] if subs[n]['recv'] else t
+        return f"call 0 {n} {recv} " + ' '.join(map(str, rest))
     for n, ts in w['fills'].items():
-        for t in ts: L.append(f"call 0 {n} 0 " + ' '.join(map(str, t)))
+        if n in late: continue
+        for t in ts: L.append(callline(n, t))
     if w['mode'] == 'group':
         L.append({'tag': 'inv_tag', 'event': 'inv_event', 'dep': 'inv_dep', 'cache': 'inv_cache'}[w['kind2']] + ' ' + w['name'])
     elif w['mode'] == 'with':
@@ -262,7 +282,10 @@ def replay(f, w):
     if w.get('repeat'):
         reqline = L[-1]
         for n, ts in w['fills'].items():
-            if ts: L.append(f"call 0 {n} 0 " + ' '.join(map(str, ts[0])))
+            if ts and n not in late: L.append(callline(n, ts[0]))
+        for n, ts in w['fills'].items():
+            if n in late:
+                for t in ts: L.append(callline(n, t))
         L.append(reqline)
     names = {}
     for n in w['fills']:
@@ -300,4 +323,58 @@ def replay(f, w):
         exp_ret = str(nm) if w['kind2'] != 'cache' else ('true' if nm else 'false')
         for j, iv in enumerate(inv):
             if iv.split()[1] != exp_ret: dev.append(f"request #{j + 1} returned {iv.split()[1]} expected {exp_ret}")
+    if not dev and 'queue' in f.get('clause', '') and w['mode'] in ('with', 'all_with'):
+        d2, lines2 = diff_tail(w, subs, callline)
+        if d2: return True, 'native run deviates from a run in which the removed keys were never stored: ' + d2, lines2
     return (len(dev) > 0), ('native run deviates from the attribute lists: ' + '; '.join(dev)) if dev else 'native run behaves as the attribute lists prescribe', lines
+
+
+def gen_tail(seed, live, lim):
+    """a tail of further calls: fill to the limit, a run of hits, an overflow (optionally a second round), then one probe per key"""
+    import random
+    rnd = random.Random(7000 + seed); live = list(live)
+    fresh = [800001 + i for i in range(lim + 2)]
+    tail = []
+    for x in fresh[:max(0, lim - len(live))]: tail.append(x); live.append(x)
+    for _ in range(rnd.randint(0, 4 * lim)): tail.append(rnd.choice(live))
+    tail.append(fresh[-1]); live.append(fresh[-1])
+    if rnd.random() < 0.5:
+        for _ in range(rnd.randint(0, 2 * lim)): tail.append(rnd.choice(live))
+        tail.append(fresh[-2]); live.append(fresh[-2])
+    return tail + sorted(live)
+
+
+def diff_tail(w, subs, callline, tries=120):
+    """C13 'as if the removed entries had never been stored': the solver's witness says the eviction queue still lists a removed
+    key.  The queue is private to the expansion, so the native confirmation is differential: the witness history (fills, request)
+    followed by a tail of further calls is compared with the history without the removed keys followed by the same tail; the two
+    execution traces must agree call by call.  The tails are drawn from a fixed seed sequence (fill to the limit, hits, overflow, probes)."""
+    import random
+    from . import replay as R
+    c = w['cache']
+    if c not in w['fills'] or not w['fills'][c]: return None, []
+    it = subs[c]['intended']
+    if not it['limit'] or subs[c]['flavour'] == 'T' or it['policy'] == 'Random' or len(subs[c]['args']) != 1 or subs[c]['recv']: return None, []
+    cn = it['cache_name']
+    removed = set(k for pc, k, b in w['pred'] if b and (pc == cn or w['mode'] == 'with' and pc == w['name']))
+    stored = [t for t in w['fills'][c]]
+    surv = [t for t in stored if str(t[0]) not in removed]
+    if len(surv) == len(stored): return None, []
+    if w['mode'] == 'with': req = 'inv_with ' + w['name'] + ' ' + ' '.join(k.replace(' ', '%20') for pc, k, b in w['pred'] if b and pc == w['name'])
+    else: req = 'inv_all_with ' + ' '.join(f"{pc}:{k.replace(' ', '%20')}" for pc, k, b in w['pred'] if b)
+    lim = it['limit']
+    for seed in range(tries):
+        tail = gen_tail(seed, [t[0] for t in surv], lim)
+        def script(fills):
+            L = ['scenario subj'] + [callline(c, t) for t in fills] + [req] + [f'call 0 {c} 0 {x}' for x in tail] + ['end']
+            outs, err = R.run_scenarios('\n'.join(L) + '\n', timeout=60)
+            if not outs: return None, []
+            ex = [int(l.split()[1]) for l in outs[0] if l.startswith('execs ')]
+            if len(ex) != len(fills) + len(tail): return None, outs[0]
+            return [ex[i] - (ex[i - 1] if i else 0) for i in range(len(ex))][len(fills):], outs[0]
+        a, la = script(stored); b, lb = script(surv)
+        if a is None or b is None: continue
+        if a != b:
+            j = next(i for i, (x, y) in enumerate(zip(a, b)) if x != y)
+            return (f"{c}: after the request, call #{j + 1} of the tail {tail} (argument {tail[j]}) {'runs the body' if a[j] else 'is a hit'} but {'runs the body' if b[j] else 'is a hit'} when the removed keys {sorted(removed)} were never stored (tail seed {seed})"), la + ['--- reference run without the removed keys ---'] + lb
+    return None, []
